@@ -21,13 +21,14 @@ EXPLANATION = ('the property is judged on the implementation\'s own outputs: DL.
                '(DL*c).predict / (DL/c).predict vs c*DL.predict / DL.predict/c, and the original DL unchanged (decisions, '
                'predictions, identity of the returned object). The Lean theorems Fca.C20.* prove, for every well-formed tree '
                'array set and every row, that the model\'s traced generator records are the row\'s root-to-leaf path and the sum '
-               'of deltas is the leaf value; the run compares the model with the implementation on: parsed decisions, concept '
+               'of deltas is the leaf value (dl_predict_eq_tree, full: worklist invariant + parse inversion); the run compares the model with the implementation on: parsed decisions, concept '
                'extents, lattice top, generator records, predictions, scaled predictions; and feeds the implementation\'s own '
                'generator records to the Lean checker `checkRecs` (records containing row g == nodes on g\'s path).')
 ASSUMPTIONS = [
     'cells are single numbers (IntervalPS stores them as (x, x)); data and thresholds lie on a dyadic grid so float comparisons '
     'are exact; node values are the exact rational values of sklearn\'s float64 means',
     'the thresholds of a fitted tree separate the context\'s values by more than eps = 1e-9 (decidable `wellFormed`, checked per case)',
+    'every node of a fitted tree is reached by at least one row of the context (decidable `fitted`, checked per case)',
     'iteration over equal Python sets built the same way yields the same order (the root\'s duplicate generator records collapse '
     'under set())',
     'negative feature indexes (Python wrap-around) are outside the scope',
@@ -359,16 +360,19 @@ def judge(c, io, rep):
     # ---- Lean checker on the implementation's records ----------------------------------------------------------------
     if not r['wf']:
         return bad('harness', 'generated case is outside the theorem\'s hypothesis: wellFormed = false for a fitted tree')
+    if not r.get('fitted'):
+        return bad('harness', 'generated case is outside the theorem\'s hypothesis: fitted = false (a node no row reaches)')
     if r['recs_ok'] is not True:
         return bad('property', f'implementation\'s generator records are not the root-to-leaf paths: recs={io["recs"]} '
                                f'paths={r["paths"]}')
     # ---- model self-consistency (what the theorems say) ----------------------------------------------------------------
     if 'err' in r['conv']:
-        return bad('correspondence', f'model conversion raises {r["conv"]["err"]}, implementation succeeds')
+        return bad('harness', f'model conversion raises {r["conv"]["err"]} although wellFormed and fitted hold '
+                              f'(contradicts dl_converted_predicts)')
     if 'ok' not in r['pred'] or 'ok' not in r['recs']:
         return bad('correspondence', f'model prediction raises {r["pred"]}')
     if r['hyps'] != {'keys': True, 'path': True}:
-        return bad('harness', f'a hypothesis of dl_predict_eq_tree_partial is false on the model\'s own trace: {r["hyps"]}')
+        return bad('harness', f'tracePathOK/traceKeysOK is false on the model\'s own trace although dl_predict_eq_tree proves both: {r["hyps"]}')
     mp = [Q(p) for p in r['pred']['ok']]
     mt = [Q(p) for p in r['tree_pred']]
     if mp != mt:
